@@ -36,7 +36,10 @@ QuoteWhy(r) ==
   ELSE ""
 TotalWhy(r) == IF r.outcome \notin {"url", "URLParseError"} THEN "URL()-raised-" \o r.outcome
                ELSE IF r.links # "ok" THEN "find_all_links-raised-" \o r.links ELSE ""
-Why(r) == CASE r.kind = "cell" -> CellWhy(r) [] r.kind = "quote" -> QuoteWhy(r) [] r.kind = "total" -> TotalWhy(r) [] OTHER -> "unknown-kind"
+(*  kind "unquote": unquote(input) decodes every well-formed percent-XX escape and leaves everything else alone *)
+UnquoteWhy(r) == IF Utf8(r.unquoted) # PctBytes(r.input) THEN "unquote-touches-something-else-or-misses-an-escape" ELSE ""
+Why(r) == CASE r.kind = "cell" -> CellWhy(r) [] r.kind = "quote" -> QuoteWhy(r) [] r.kind = "total" -> TotalWhy(r)
+            [] r.kind = "unquote" -> UnquoteWhy(r) [] OTHER -> "unknown-kind"
 Init == tid \in 1..Len(Traces) /\ l = 1
 Step == /\ l = 1
         /\ LET w == Why(Traces[tid]) IN
